@@ -5,8 +5,8 @@
 (*                                                                           *)
 (* The harness (harness/props/c19_gen.go) runs the real generator and writes *)
 (* for every call the lines                                                  *)
-(*   {"ev":"Call","c":..,"n":..,"entropy":"inf"|"zero"|"finite"|"barrier",   *)
-(*    "reads":j,"bar":k,"pre":b}                                             *)
+(*   {"ev":"Call","c":..,"n":..,"entropy":"inf"|"zero"|"finite"|"barrier"|   *)
+(*    "transient","reads":j,"bar":k,"pre":b}                                 *)
 (*       c        the concurrency argument, projected to min(c, MaxC)        *)
 (*       n        numPrimes                                                  *)
 (*       entropy  the reader handed to the call: never fails / fails at the  *)
@@ -16,7 +16,10 @@
 (*                projected concurrency) or the reader is opened otherwise   *)
 (*                (its time limit; the harness, after it has cancelled the   *)
 (*                context): all producers meet the failure at the same time  *)
-(*       reads,bar  0 unless entropy = "barrier"                             *)
+(*                "transient": j Read calls succeed, the next one fails, all *)
+(*                later ones succeed again                                   *)
+(*       reads    0 unless entropy is "barrier" or "transient"               *)
+(*       bar      0 unless entropy = "barrier"                               *)
 (*       pre      the context was cancelled before the call                  *)
 (*   {"ev":"BarrierOpen","held":h,"forced":b}   (barrier readers only, and   *)
 (*       only if a caller was inside when the reader opened)                 *)
@@ -51,23 +54,24 @@ tvars == <<vars, l, phase>>
 
 TraceInit ==
   /\ l = 1 /\ phase = "idle"
-  /\ InitFor([c |-> 1, n |-> 1, budget |-> Inf, pre |-> FALSE, bar |-> 0])
+  /\ InitFor([c |-> 1, n |-> 1, budget |-> Inf, pre |-> FALSE, bar |-> 0, heal |-> FALSE])
 
 IsEvent(name) == l <= Len(TraceLog) /\ TraceLog[l].ev = name /\ l' = l + 1
 
 Budget(e) == CASE e.entropy = "inf"    -> Inf
                [] e.entropy = "zero"   -> 0
                [] e.entropy = "finite" -> e.n
-               [] e.entropy = "barrier" -> e.reads       \* counted in Read calls by the reader: exact
+               [] e.entropy \in {"barrier", "transient"} -> e.reads   \* counted in Read calls by the reader: exact
 
 TraceCall ==
   /\ phase = "idle"
   /\ IsEvent("Call")
   /\ LET e == TraceLog[l] IN
        /\ e.c \in 1..MaxC /\ e.n \in 1..3 /\ e.pre \in BOOLEAN
-       /\ e.entropy \in {"inf", "zero", "finite", "barrier"}
-       /\ e.reads \in 0..3 /\ e.bar \in 0..e.c /\ (e.entropy # "barrier" => e.reads = 0 /\ e.bar = 0)
-       /\ ResetFor([c |-> e.c, n |-> e.n, budget |-> Budget(e), pre |-> e.pre, bar |-> e.bar])
+       /\ e.entropy \in {"inf", "zero", "finite", "barrier", "transient"}
+       /\ e.reads \in 0..3 /\ e.bar \in 0..e.c
+       /\ (e.entropy \notin {"barrier", "transient"} => e.reads = 0) /\ (e.entropy # "barrier" => e.bar = 0)
+       /\ ResetFor([c |-> e.c, n |-> e.n, budget |-> Budget(e), pre |-> e.pre, bar |-> e.bar, heal |-> (e.entropy = "transient")])
   /\ phase' = "running"
 
 (* what the goroutines do between two observations *)
